@@ -357,34 +357,37 @@ theorem rank_eq_runs {κ : Type} [DecidableEq κ] (key : Snap → κ) (eq : Snap
     | zero => simp [rank, runsFrom]
     | succ i =>
       have hi' : i < t.length := by simpa using hi
-      obtain ⟨b, t', ht⟩ : ∃ b t', t = b :: t' := by
-        cases t with
-        | nil => simp at hi'
-        | cons b t' => exact ⟨b, t', rfl⟩
-      simp only [ctxFrom, List.take_succ_cons] at hord ⊢
-      have hc : kind o now ⟨p, a, t.head?⟩ = .ord := hord _ (by simp)
-      have hrest : ∀ c ∈ (ctxFrom (some a) t).take i, kind o now c = .ord := fun c hc' => hord c (by simp [hc'])
-      have ih' := ih (some a) i hi' hrest
-      simp only [rank, List.countP_cons] at ih' ⊢
-      rw [ih']
-      simp only [runsFrom, Option.map_some]
-      have hh : ordHead o now eq ⟨p, a, t.head?⟩ = !(decide (p.map key = some (key a))) := by
-        simp only [ordHead, hc, beq_self_eq_true, Bool.true_and, headOf, ht, List.head?_cons, Option.isNone_some,
-          Bool.false_or]
-        cases p with
-        | none => simp
-        | some q =>
-          simp only [Option.map_some, Option.some.injEq]
-          by_cases hk : key a = key q
-          · have : eq a q = true := (heq a q).2 hk
-            simp [this, hk]
-          · have : eq a q = false := by
-              cases he : eq a q with
-              | false => rfl
-              | true => exact absurd ((heq a q).1 he) hk
-            have hk' : ¬ key q = key a := fun h => hk h.symm
-            simp [this, hk']
-      rw [hh]
-      by_cases hp : p.map key = some (key a) <;> simp [hp] <;> omega
+      cases t with
+      | nil => simp at hi'
+      | cons b t' =>
+        simp only [ctxFrom, List.take_succ_cons, List.head?_cons] at hord ⊢
+        have hc : kind o now ⟨p, a, some b⟩ = .ord := hord _ (by simp)
+        have hrest : ∀ c ∈ (ctxFrom (some a) (b :: t')).take i, kind o now c = .ord := by
+          intro c hc'
+          apply hord c
+          simp only [ctxFrom, List.head?_cons] at hc'
+          simp [hc']
+        have ih' := ih (some a) i hi' hrest
+        simp only [ctxFrom, List.head?_cons] at ih'
+        have hh : ordHead o now eq ⟨p, a, some b⟩ = !(decide (p.map key = some (key a))) := by
+          simp only [ordHead, hc, beq_self_eq_true, Bool.true_and, headOf, Option.isNone_some, Bool.false_or]
+          cases p with
+          | none => simp
+          | some q =>
+            simp only [Option.map_some, Option.some.injEq]
+            by_cases hk : key a = key q
+            · have : eq a q = true := (heq a q).2 hk
+              simp [this, hk]
+            · have : eq a q = false := by
+                cases he : eq a q with
+                | false => rfl
+                | true => exact absurd ((heq a q).1 he) hk
+              have hk' : ¬ key q = key a := fun h => hk h.symm
+              simp [this, hk']
+        simp only [rank, List.countP_cons, runsFrom, Option.map_some] at ih' ⊢
+        rw [ih', hh]
+        by_cases hp : p.map key = some (key a)
+        · simp [hp]
+        · simp [hp]; omega
 
 end Rustic.Forget
